@@ -873,6 +873,15 @@ class Unparser:
             return
         if k == 'label':
             s['ln'] = self.emit(s['n'] + ':', 0)
+        elif k == 'if' and s.get('line'):
+            # single-line IF: every statement of it shares the line
+            t = 'IF %s THEN %s' % (expr_text(s['arms'][0]['c']), ': '.join(self.simple_text(x) for x in s['arms'][0]['body']))
+            if s['els']:
+                t += ' ELSE ' + ': '.join(self.simple_text(x) for x in s['els'])
+            s['ln'] = self.emit(t, ind)
+            s['arms'][0]['ln'] = s['ln']
+            for x in s['arms'][0]['body'] + s['els']:
+                x['ln'] = s['ln']
         elif k == 'if':
             s['ln'] = self.emit('IF %s THEN' % expr_text(s['arms'][0]['c']), ind)
             s['arms'][0]['ln'] = s['ln']
